@@ -317,6 +317,10 @@ class G:
       return "%s(%s)" % (cls["name"], ", ".join(args))
     if kind[0] == "union":
       a, b = kind[1], kind[2]
+      if self.chance(30):
+        self.features.add("bool-op-value")
+        return "(%s %s %s)" % (self.expr(env, a, d), self.pick(["or", "and"]),
+                               self.expr(env, b, d))
       return "(%s if %s else %s)" % (self.expr(env, a, d), self.cond(env, d),
                                      self.expr(env, b, d))
     raise AssertionError(kind)
@@ -352,7 +356,7 @@ class G:
       return self.pick(["True", "False", "1", "0", "''", "None"])
     if c == 1:
       vs = [n for n, k in env.items() if k in ("str", "int") or
-            (isinstance(k, tuple) and k[0] in ("list", "dict"))]
+            (isinstance(k, tuple) and k[0] in ("list", "dict", "inst"))]
       if vs:
         self.features.add("truthiness")
         return self.pick(vs)
@@ -380,6 +384,8 @@ class G:
   # ---- statements (each returns list of lines; mutates env)
   def assign(self, env, indent=""):
     kind = self.some_kind(1)
+    if self.chance(15):
+      kind = ("union", kind, self.some_kind(0))
     free = [n for n in env if n not in self.annotated]
     if self.chance(25) and free:
       # (annotated names are never rebound: the program would contradict its
@@ -690,6 +696,34 @@ class G:
     env[vn] = f["ret"]
     return ["%s = %s(%s)" % (vn, f["name"], args)]
 
+  def dispatch_stmt(self, env):
+    """A function whose result kind depends on the class of its argument,
+    called with constants that are equal / hash-equal but of different
+    classes (1 / True / 1.0, 'k' / b'k', 0 / False / None)."""
+    self.features.add("type-dispatch")
+    f = self.fresh("f")
+    tests = self.draw(st.lists(st.sampled_from(
+        ["bool", "int", "float", "str", "bytes", "type(None)"]), min_size=1,
+                               max_size=3, unique=True))
+    lines = ["def %s(p):" % f]
+    kinds = []
+    for t in tests:
+      k = self.some_kind(0, False)
+      kinds.append(k)
+      lines += ["  if isinstance(p, %s):" % t,
+                "    return %s" % self.expr({}, k, 1)]
+    k = self.some_kind(0, False)
+    kinds.append(k)
+    lines.append("  return %s" % self.expr({}, k, 1))
+    args = self.draw(st.lists(st.sampled_from(
+        ["1", "True", "1.0", "0", "False", "None", "'k'", "b'k'", "''",
+         "b''"]), min_size=2, max_size=4))
+    for a in args:
+      v = self.fresh("r")
+      lines.append("%s = %s(%s)" % (v, f, a))
+      env[v] = ("union",) + tuple(kinds)
+    return lines
+
   def lambda_stmt(self, env):
     self.features.add("lambda")
     ln = self.fresh("lam")
@@ -920,6 +954,8 @@ class G:
         menu += ["try"]
       if self.cfg.lambdas:
         menu += ["lambda"]
+      if self.cfg.functions:
+        menu += ["dispatch"]
       if ext:
         menu += ["ext"] * 5
       c = self.pick(menu)
@@ -940,6 +976,8 @@ class G:
         lines = self.try_stmt(env, "")
       elif c == "lambda":
         lines = self.lambda_stmt(env)
+      elif c == "dispatch":
+        lines = self.dispatch_stmt(env)
       elif c == "mutate":
         lines = self.mutate_stmt(env, "")
       else:
